@@ -77,7 +77,7 @@ func (p *Prop) Generate(base uint64, index int, env *sim.Env) *sim.Case {
 		var steps []Step
 		for i := 0; i < n; i++ {
 			op := sim.Pick(hr, []string{"pagecount", "frag", "frag", "frag", "text", "box", "rotate", "res", "clearcache", "reopen",
-				"ext.text", "ext.frags", "ext.pagecount", "fromreader.text"})
+				"ext.text", "ext.frags", "ext.pagecount", "fromreader.text", "meta.text", "meta.markdown", "meta.jsonl", "meta.document"})
 			steps = append(steps, Step{Op: op, Page: hr.Intn(maxPages)})
 		}
 		sp.History = append(sp.History, steps)
@@ -95,6 +95,24 @@ func stripSpace(s string) string {
 		}
 	}
 	return b.String()
+}
+
+// sameModel: do two logical documents show the same lines at the same places?
+func sameModel(a, b pdfw.DocModel) bool {
+	if len(a.Pages) != len(b.Pages) {
+		return false
+	}
+	for i := range a.Pages {
+		if a.Pages[i].MediaBox != b.Pages[i].MediaBox || a.Pages[i].Rotate != b.Pages[i].Rotate || len(a.Pages[i].Lines) != len(b.Pages[i].Lines) {
+			return false
+		}
+		for j := range a.Pages[i].Lines {
+			if a.Pages[i].Lines[j] != b.Pages[i].Lines[j] {
+				return false
+			}
+		}
+	}
+	return true
 }
 
 func sortRunes(s string) string {
@@ -151,11 +169,14 @@ func (p *Prop) Execute(c *sim.Case, env *sim.Env) *sim.Result {
 		}
 	}
 	feats := sp.Doc.Features()
+	// the same logical document in the plainest physical layout (metamorphic reference)
+	plainGen := pdfw.Generate(sp.Doc.PlainStorage())
 	t := zzsimrt.NewTask(0, sp.MapSeed)
 	zzsimrt.Enter(t)
 	defer zzsimrt.Leave()
 
 	path := env.Disk.PutNamed("c01.pdf", nil)
+	plainPath := env.Disk.PutNamed("c01-plain.pdf", nil)
 	var fail *failure
 	setFail := func(class, detail string) {
 		if fail == nil {
@@ -165,7 +186,11 @@ func (p *Prop) Execute(c *sim.Case, env *sim.Env) *sim.Result {
 	totalSteps := 0
 	for rev := range commits {
 		env.Disk.Append(path, commits[rev])
+		if rev < len(plainGen.Commits) {
+			env.Disk.Append(plainPath, plainGen.Commits[rev])
+		}
 		model := models[rev]
+		sameLogical := rev < len(plainGen.Models) && sameModel(model, plainGen.Models[rev])
 		var rd *reader.Reader
 		open := func() bool {
 			var err error
@@ -323,6 +348,53 @@ func (p *Prop) Execute(c *sim.Case, env *sim.Env) *sim.Result {
 					setFail("ext.pagecount:"+oc.Kind, where+": "+oc.Where+" "+oc.Msg)
 				} else if n != len(model.Pages) {
 					setFail("ext.pagecount:wrong", fmt.Sprintf("%s: got %d, expected %d", where, n, len(model.Pages)))
+				}
+			case "meta.text", "meta.markdown", "meta.jsonl", "meta.document":
+				// "no matter how the file stores it": the complete result for this file must be
+				// byte-identical to the result for the same logical document stored plainly
+				if !sameLogical {
+					res.Count("meta.skipped-models-differ", 1)
+					break
+				}
+				run := func(pth string) (string, sim.Outcome) {
+					var out string
+					oc := call(func() error {
+						var err error
+						switch st.Op {
+						case "meta.text":
+							out, _, err = tabula.Open(pth).Text()
+						case "meta.markdown":
+							out, _, err = tabula.Open(pth).ToMarkdown()
+						case "meta.document":
+							d, _, e := tabula.Open(pth).Document()
+							err = e
+							if d != nil {
+								out = sim.Dump(d.Pages)
+							}
+						default:
+							cc, _, e := tabula.Open(pth).Chunks()
+							err = e
+							if cc != nil {
+								out, err = cc.ToJSONL()
+							}
+						}
+						return err
+					})
+					return out, oc
+				}
+				vOut, vOc := run(path)
+				pOut, pOc := run(plainPath)
+				if vOc.Bad() {
+					setFail(st.Op+":"+vOc.Kind, where+": "+vOc.Class()+" "+vOc.Msg)
+					break
+				}
+				if vOc.Kind != pOc.Kind {
+					setFail(st.Op+":storage-dependent", fmt.Sprintf("%s: the operation gives %s (%s) on this file but %s (%s) on the same logical document stored plainly", where, vOc.Kind, vOc.Msg, pOc.Kind, pOc.Msg))
+					break
+				}
+				if vOut != pOut {
+					a, b := sim.DiffContext(pOut, vOut)
+					setFail(st.Op+":storage-dependent", fmt.Sprintf("%s: the result depends on how the file stores the document\n  plain layout: %s\n  this layout:  %s", where, a, b))
 				}
 			case "ext.text", "ext.frags", "fromreader.text":
 				var got string
